@@ -248,6 +248,12 @@ class _ParallelMapperIter(Iterator[T]):
             try:
                 item, idx = self._out_q.get(block=True, timeout=QUEUE_TIMEOUT)
             except queue.Empty:
+                if not self._read_thread.is_alive() and self._sem._value == self._max_tasks:
+                    # The reader is gone (e.g. the source raised) and nothing is in flight:
+                    # no further result can arrive, so the stream is over
+                    self._stop.set()
+                    self._mp_stop.set()
+                    raise StopIteration()
                 continue
 
             if isinstance(item, StopIteration):
